@@ -82,12 +82,30 @@ def ctor_parameters():
     return pos, kwo
 
 
+def export_defaults():
+    """Defaults of `fsic.tools.model_to_dataframe(model, *, status, iterations, include_internal)` (what an omitted
+    keyword means), as truth values."""
+    import inspect
+    import fsic
+    ps = inspect.signature(fsic.tools.model_to_dataframe).parameters
+    out = []
+    for k, fallback in (('status', True), ('iterations', True), ('include_internal', False)):
+        d = ps[k].default if k in ps and ps[k].default is not inspect.Parameter.empty else fallback
+        out.append(bool(d))
+    return out
+
+
 def tables():
     def lstr(s):
         return '"' + s.replace('\\', '\\\\').replace('"', '\\"') + '"'
     obs = observe()
     pos, kwo = ctor_parameters()
+    ds, di, dn = ('true' if x else 'false' for x in export_defaults())
     return [
+        '/-- `model_to_dataframe`: what an omitted `status=` / `iterations=` / `include_internal=` means. -/',
+        f'def exportDefaultStatus : Bool := {ds}',
+        f'def exportDefaultIterations : Bool := {di}',
+        f'def exportDefaultInternal : Bool := {dn}',
         '/-- `BaseModel.__init__`: names of the positional(-or-keyword) parameters (a `from_dataframe` column labelled',
         '    like one of them makes `cls(index, **columns)` raise TypeError). -/',
         'def modelCtorPositional : List String := [' + ', '.join(lstr(x) for x in pos) + ']',
